@@ -10,6 +10,7 @@ use deno_ast::swc::ast::Expr;
 use deno_ast::swc::ast::ExprOrSpread;
 use deno_ast::swc::ecma_visit::noop_visit_type;
 use deno_ast::swc::ecma_visit::Visit;
+use deno_ast::swc::ecma_visit::VisitWith;
 use deno_ast::SourceRange;
 use deno_ast::SourceRangedForSpanned;
 
@@ -131,6 +132,7 @@ impl Visit for NoInvalidRegexpVisitor<'_, '_> {
     if let deno_ast::swc::ast::Callee::Expr(expr) = &call_expr.callee {
       self.handle_call_or_new_expr(expr, &call_expr.args, call_expr.range());
     }
+    call_expr.visit_children_with(self);
   }
 
   fn visit_new_expr(&mut self, new_expr: &deno_ast::swc::ast::NewExpr) {
@@ -141,6 +143,7 @@ impl Visit for NoInvalidRegexpVisitor<'_, '_> {
         new_expr.range(),
       );
     }
+    new_expr.visit_children_with(self);
   }
 }
 
